@@ -5,7 +5,11 @@ Streams (all of them on every run, budgets differ by tier):
   automaton automata/lev.py, fsa.py  model NFA/DFA/next_valid_string <-> real objects (accept, tables, successor)
   index     reader.terms_within (SegmentReader = DFA walk, MultiReader = filter by distance()),
             FuzzyTerm searches, Searcher.suggest  <-> model, and <-> the Lean spec `within osa`
-  multibyte the same on sampled lexicons over multi-byte alphabets (incl. U+0000, U+10FFFF)
+  multibyte the same on sampled lexicons over multi-byte alphabets (incl. U+0000, U+10FFFF, both
+            neighbours of the surrogate block, non-BMP); the model walks the byte-ordered dictionary here
+  utf8      FieldType.to_bytes <-> model utf8Encode (UnicodeEncodeError on surrogates), byte order <-> code
+            point order, the real W3FieldCursor.find/text <-> model cursorFindBytes
+  fne       DFA.find_next_edge in every state reached on the probes <-> model findNextEdge (direct)
 Exhaustive domains: all words of length <= 5 over {a,b} and <= 4 over {a,b,c} as lexicon members
 and as query words, d in 0..3, p in 0..6.
 """
@@ -25,6 +29,7 @@ THEOREMS = [
     "WM.C19.dp_lev", "WM.C19.dp_osa", "WM.C19.dp_lev_limit", "WM.C19.dp_osa_limit",
     "WM.C19.nfa_reach_sound", "WM.C19.nfa_reach_complete", "WM.C19.nfa", "WM.C19.dfa", "WM.C19.next_valid",
     "WM.C19.walk", "WM.C19.terms_within_multi", "WM.C19.terms_within_single",
+    "WM.C19.utf8_order", "WM.C19.utf8_injective", "WM.C19.cursor_bytes", "WM.C19.terms_within_single_bytes",
     "WM.C19.fuzzy_query", "WM.C19.fuzzy_query_index", "WM.C19.multi_eq_single_partial", "WM.C19.single_subset_documented",
     "WM.C19.single_segment_misses_transposition", "WM.C19.not_multi_eq_single",
     "WM.C19.suggest_partial", "WM.C19.suggest_single_partial", "WM.C19.suggest_returns_word",
@@ -37,6 +42,8 @@ PARTIAL = {
                                   "(within lev); the property's distance is the documented osa - the difference is "
                                   "the recorded finding, witness WM.C19.single_segment_misses_transposition / "
                                   "WM.C19.not_multi_eq_single",
+    "WM.C19.terms_within_single_bytes": "as terms_within_single, over the dictionary ordered by UTF-8 key bytes "
+                                        "(same recorded deviation: lev instead of the documented osa)",
     "WM.C19.fuzzy_query": "exact characterisation of FuzzyTerm hits on one segment, by lev instead of the documented "
                           "osa (recorded finding; the empty-term omission was repaired in MultiTerm.matcher)",
     "WM.C19.fuzzy_query_index": "the union over the segments of a multi-segment index (global document numbers); same "
@@ -61,12 +68,19 @@ PARTIAL = {
 }
 RULE = ("exhaustive: every word of length <=5 over {a,b} and <=4 over {a,b,c} as query word against lexicons "
         "containing all such words (one segment / three segments) and seeded sub-lexicons, d in 0..3, p in 0..6, "
-        "plus sampled multi-byte lexicons; a case is one (component, lexicon, word, d, p[, limit]) evaluation; "
+        "plus sampled multi-byte lexicons and exhaustive lexicons (all words <=3) over five 3-letter alphabets that "
+        "straddle the surrogate block, U+10FFFF and the 1/2/3/4-byte UTF-8 boundaries; a case is one (component, lexicon, word, d, p[, limit]) evaluation; "
         "non-trivial = the distance bound really cuts (result neither empty nor the whole prefix-filtered "
         "lexicon) for index cases, both words non-empty and different for dp cases, 0 < accepted < probes for "
-        "automaton cases")
+        "automaton cases; find_next_edge cases: the three outcomes (next code point / a later label / none) all "
+        "occur for the automaton; utf8 cases: a non-ASCII character is present; cursor cases: the cursor lands on a "
+        "later term that is not the first")
 ASSUMPTIONS = [
-    "UTF-8 byte order of stored terms equals code point order (terms are compared as code point lists in the model)",
+    "str.encode('utf-8') is the bit layout of WM.Lev.utf8Char and raises on surrogates (checked against "
+    "FieldType.to_bytes on every run, incl. every length boundary, both neighbours of the surrogate block and "
+    "non-BMP characters; that this byte order is code point order is proved: WM.C19.utf8_order)",
+    "closest_key_pos of the term index returns the first key >= the argument in byte order (C20's ordered hash; "
+    "checked here through the real field cursor against cursorFindBytes)",
     "heapq keeps the minimum at heap[0] (the heap is a sorted list in the model)",
     "float scores 0-(maxdist+1.0/f*0.5) order like the exact rationals of the model (frequencies are small integers)",
     "the merged term list of a MultiReader is the sorted union of the segment term lists (checked end-to-end, not modelled)",
@@ -75,12 +89,14 @@ TRUSTED = [
     "modelled, not verified: whoosh.support.levenshtein (both routines), automata.lev.levenshtein_automaton, "
     "automata.fsa NFA/DFA (expand, next_state, to_dfa, next_valid_string, find_next_edge), "
     "codec.base.Automata.find_matches, reading.IndexReader.terms_within, spelling.Corrector.suggest / "
-    "ReaderCorrector._suggestions",
+    "ReaderCorrector._suggestions, ListCorrector._suggestions, FieldType.to_bytes (UTF-8) and "
+    "W3FieldCursor.find/text as 'first key >= in byte order'",
 ]
 MANIFEST = {
     "level_text": "Lean theorems (all words, all lexicons, all limits, all d/p) over executable models of the two "
                   "edit-distance routines, the Levenshtein NFA, the subset construction, next_valid_string, the term "
-                  "walk and both terms_within paths: the multi-segment path returns exactly the terms within the "
+                  "walk (also over the dictionary ordered by UTF-8 key bytes: byte order = code point order is a "
+                  "theorem) and both terms_within paths: the multi-segment path returns exactly the terms within the "
                   "documented (optimal string alignment) distance, the single-segment path exactly those within "
                   "plain Levenshtein distance - so the property is proved false of the code (recorded finding); "
                   "models tied to whoosh by exhaustive differential runs over all words <=5 on {a,b} / <=4 on "
@@ -88,8 +104,9 @@ MANIFEST = {
     "level_note": "Searcher.suggest / Searcher.correct_query / SimpleQueryCorrector are thin wrappers: correctToken models "
                   "the choice of the first suggestion, the argument forwarding (prefix, maxdist, aliases, custom "
                   "correctors, default terms) is checked end to end only. Suggestions: only membership and count are proved (ranking/self-exclusion are recorded defects). "
-                  "heapq, float score order, UTF-8 byte order = code point order and MultiReader term merging are "
-                  "trusted; the fuel bounds of the three fuelled model loops are proved sufficient.",
+                  "heapq, float score order and MultiReader term merging are trusted; UTF-8 byte order = code "
+                  "point order is proved (utf8_order) and the walk is proved over the byte-ordered dictionary "
+                  "(terms_within_single_bytes); the fuel bounds of the three fuelled model loops are proved sufficient.",
     "technique": "Lean 4 proof + differential correspondence + spec-as-oracle end-to-end",
 }
 
@@ -98,6 +115,7 @@ SIG_TRANSP_FUZZY = "FuzzyTerm.search:transposition-neighbours-missing(hits==docs
 SIG_PREFIX = "levenshtein_automaton:prefix>len(term):IndexError"
 SIG_EMPTY = "Automata.find_matches:empty-string-match-ends-walk(lexicon-contains-empty-term)"
 SIG_MAXCP = "DFA.find_next_edge:label==U+10FFFF:ValueError"
+SIG_SURR = "DFA.find_next_edge:label-after-U+D7FF-is-a-surrogate:UnicodeEncodeError-in-cursor.find"
 SIG_EMPTYTERM = "MultiTerm.matcher:skips-empty-term(hits==expected-minus-docs-of-the-empty-term)"
 SIG_LIST_LEV = ("ListCorrector._suggestions:plain-Levenshtein-automaton(transposition-neighbour-missing-or-ranked-"
                 "one-further)")
@@ -108,6 +126,8 @@ SIG_SUG_CUT = "Corrector.suggest:cut-drops-closer-term(score-uses-maxdist-or-Lev
 DS = [0, 1, 2, 3]
 PS = [0, 1, 2, 3, 4, 5, 6]
 MAXCP = chr(0x10FFFF)
+LASTLOW = chr(0xD7FF)        # the last code point before the surrogate block
+FIRSTHIGH = chr(0xE000)      # the first one after it
 
 
 # ------------------------------------------------------------------------------------------------
@@ -292,6 +312,126 @@ def _automaton_stream(ctx, domains):
 
 
 # ------------------------------------------------------------------------------------------------
+# stream 2b: find_next_edge, directly
+
+FNE_LABELS = [0, 0x60, 0x61, 0x62, 0x63, 0xD7FE, 0xD7FF, 0xD800, 0xDFFF, 0xE000, 0x10FFFE, 0x10FFFF]
+
+
+def _fne_stream(ctx, words, probes):
+    units = [(w, DS, [0, 1, 2, 6], probes, FNE_LABELS) for w in words]
+    real = ctx.pmap(G.run_fne_unit, units)
+    lines = []
+    for w in words:
+        for k in DS:
+            for p in [0, 1, 2, 6]:
+                lines.append("c19 fne %s %d %d %s %s" % (G.sx_word(w), k, p, G.sx_words(probes), G.sx_nats(FNE_LABELS)))
+    rep = ctx.driver.ask_parallel(lines, min_chunk=20)
+    pos = 0
+    for w, rl in zip(words, real):
+        for k in DS:
+            for p in [0, 1, 2, 6]:
+                line = rep[pos]
+                pos += 1
+                r = rl[(k, p)]
+                if isinstance(r, str) or line.startswith("err"):
+                    ctx.case(("fne", w, k, p), nontrivial=False)
+                    ctx.divergence("automata.fsa.DFA.find_next_edge", [w, k, p], line[:80], r if isinstance(r, str) else "ok")
+                    continue
+                model = [[None if x == "none" else int(x) for x in row] for row in parse_sexp(line)[0]]
+                kinds = set()
+                for u, mrow, rrow in zip(probes, model, r):
+                    for lab, m, o in zip([None] + FNE_LABELS, mrow, rrow):
+                        kinds.add("none" if o is None else ("same" if o == (0 if lab is None else lab + 1) else "skip"))
+                        ctx.stat("fne:" + ("none" if o is None else
+                                           "surrogate-gap" if (lab is not None and 0xD7FF <= lab <= 0xDFFF and o == 0xE000)
+                                           else "next-code-point" if o == (0 if lab is None else lab + 1)
+                                           else "bisect"))
+                        if m != o:
+                            ctx.divergence("automata.fsa.DFA.find_next_edge", [w, k, p, u, lab], m, o)
+                        if o is not None and 0xD800 <= o <= 0xDFFF:
+                            ctx.violation("DFA.find_next_edge:returns-a-surrogate", {"kind": "fne", "w": w, "k": k, "p": p,
+                                          "u": u, "label": lab}, "a character", o,
+                                          "a label that no term can contain and cursor.find cannot encode")
+                ctx.case(("fne", w, k, p), nontrivial=len(kinds) == 3)
+
+
+# ------------------------------------------------------------------------------------------------
+# stream 2c: UTF-8 and the byte-level cursor
+
+def _utf8_stream(ctx):
+    rng = ctx.rng("utf8")
+    bounds = [0, 1, 0x7F, 0x80, 0x7FF, 0x800, 0xFFF, 0x1000, 0xD7FF, 0xD800, 0xDBFF, 0xDC00, 0xDFFF, 0xE000,
+              0xFFFD, 0xFFFF, 0x10000, 0x10001, 0x3FFFF, 0x40000, 0xFFFFF, 0x100000, 0x10FFFE, 0x10FFFF]
+    words = [chr(c) for c in bounds]
+    cps = bounds + [rng.randint(0, 0x10FFFF) for _ in range(40)]
+    for _ in range(ctx.budget(300, 5000)):
+        words.append("".join(chr(rng.choice(cps) if rng.random() < 0.6 else rng.randint(0, 0x10FFFF))
+                             for _ in range(rng.randint(0, 4))))
+    real = []
+    for part in ctx.pmap(G.run_utf8_unit, [words[i:i + 500] for i in range(0, len(words), 500)]):
+        real.extend(part)
+    rep = ctx.driver.ask(["c19 utf8 %s" % G.sx_words(words[i:i + 500]) for i in range(0, len(words), 500)])
+    model = []
+    for line in rep:
+        for item in parse_sexp(line)[0]:
+            model.append("EXC:UnicodeEncodeError" if item == "err:UnicodeEncodeError" else
+                         item if isinstance(item, str) else [int(x) for x in item])
+    valid = []
+    for w, m, o in zip(words, model, real):
+        surr = any(0xD800 <= ord(c) <= 0xDFFF for c in w)
+        ctx.case(("utf8", w), nontrivial=any(ord(c) >= 0x80 for c in w))
+        ctx.stat("utf8:" + ("surrogate" if surr else "max-bytes-%d" % max([len(c.encode("utf8")) for c in w] or [0])))
+        if m != o:
+            ctx.divergence("FieldType.to_bytes(utf8)", [w], m, o)
+        if not surr:
+            valid.append((w, o))
+    # byte order is code point order (the statement of WM.C19.utf8_order, observed on the real encoder)
+    for _ in range(ctx.budget(2000, 40000)):
+        (a, ba), (b, bb) = rng.choice(valid), rng.choice(valid)
+        if isinstance(ba, str) or isinstance(bb, str):
+            continue
+        ca, cb = [ord(c) for c in a], [ord(c) for c in b]
+        ctx.stat("utf8-order:" + ("lt" if ca < cb else "eq" if ca == cb else "gt"))
+        if (ca < cb) != (ba < bb) or (ca == cb) != (ba == bb):
+            ctx.violation("utf8:byte-order!=code-point-order", {"kind": "utf8", "a": a, "b": b}, ca < cb, ba < bb, "")
+    # the real field cursor against the model's byte-level cursor
+    units, meta = [], []
+    pool = ["a", "b", "\x00", "\x7f", "\x80", "߿", "ࠀ", LASTLOW, FIRSTHIGH, "￿", "\U00010000", MAXCP]
+    for i in range(ctx.budget(12, 120)):
+        al = rng.sample(pool, rng.randint(2, 5))
+        lex = set()
+        for _ in range(rng.randint(1, 25)):
+            lex.add("".join(rng.choice(al) for _ in range(rng.randint(0, 4))))
+        lex = G.utf8_sorted(lex)
+        terms = list(lex) + [t + "\0" for t in lex[:8]]
+        for _ in range(12):
+            terms.append("".join(rng.choice(al + pool[:2]) for _ in range(rng.randint(0, 4))))
+        terms.append("a\ud800")           # cannot be encoded
+        terms.append(rng.choice(lex) + "\udfff")
+        units.append(("cur%d" % i, lex, terms))
+        meta.append((lex, terms))
+    real = ctx.pmap(G.run_cursor_unit, units)
+    rep = ctx.driver.ask(["c19 cursor-bytes %s %s" % (G.sx_words(lex), G.sx_words(terms)) for lex, terms in meta])
+    for (lex, terms), r, line in zip(meta, real, rep):
+        if r["order"] != lex:
+            ctx.violation("W3FieldCursor:iteration-order!=utf8-byte-order", {"kind": "cursor", "lex": lex}, lex,
+                          r["order"], "the field cursor does not enumerate the terms in byte (= code point) order")
+        for t, item, o in zip(terms, parse_sexp(line)[0], r["find"]):
+            m = ("EXC:UnicodeEncodeError" if item == "err:UnicodeEncodeError" else
+                 None if item == "none" else G.uncps(item))
+            exp = next((x for x in lex if [ord(c) for c in x] >= [ord(c) for c in t]), None)
+            surr = any(0xD800 <= ord(c) <= 0xDFFF for c in t)
+            ctx.case(("cursor", tuple(lex), t), nontrivial=exp is not None and exp != t and exp != lex[0])
+            ctx.stat("cursor.find:" + ("surrogate" if surr else "past-end" if exp is None else
+                                       "exact" if exp == t else "next"))
+            if m != o:
+                ctx.divergence("W3FieldCursor.find/text", [lex, t], m, o)
+            if not surr and o != exp:
+                ctx.violation("W3FieldCursor.find:not-the-first-term>=argument(code-point-order)",
+                              {"kind": "cursor", "lex": lex, "t": t}, exp, o, "")
+
+
+# ------------------------------------------------------------------------------------------------
 # stream 3: index paths
 
 class Config(object):
@@ -331,9 +471,12 @@ def _configs_for(ctx, name, W, nsub):
     return cfgs
 
 
-def _group(name, W, cfgs, ds, ps, sug_ds, sug_ps, limits, want_sug_on):
+def _group(name, W, cfgs, ds, ps, sug_ds, sug_ps, limits, want_sug_on, bytes_cursor=False):
+    """bytes_cursor: the model walks the byte-ordered dictionary (findMatchesBytes: UTF-8 keys, encode errors)
+    instead of the code point ordered lexicon (findMatches); equal for real characters by
+    WM.C19.terms_within_single_bytes, used for the multi-byte groups."""
     return dict(name=name, W=W, cfgs=cfgs, ds=ds, ps=ps, sug_ds=sug_ds, sug_ps=sug_ps, limits=limits,
-                want_sug_on=want_sug_on)
+                want_sug_on=want_sug_on, bytes_cursor=bytes_cursor)
 
 
 def _group_units(g):
@@ -367,13 +510,19 @@ def _group_lexs(g):
     return seglexs, mlexs
 
 
+ctx_stat_bytes = [0]
+
+
 def _group_lines(g):
     W, ds, ps = g["W"], g["ds"], g["ps"]
     seglexs, mlexs = _group_lexs(g)
     lines = []
     for w in W:
-        lines.append("c19 tw-seg-grid (%s) %s %s %s" % (" ".join(G.sx_words(lx) for lx in seglexs), G.sx_word(w),
-                                                        G.sx_nats(ds), G.sx_nats(ps)))
+        lines.append("c19 %s (%s) %s %s %s" % ("tw-seg-bytes-grid" if g.get("bytes_cursor") else "tw-seg-grid",
+                                               " ".join(G.sx_words(lx) for lx in seglexs), G.sx_word(w),
+                                               G.sx_nats(ds), G.sx_nats(ps)))
+        if g.get("bytes_cursor"):
+            ctx_stat_bytes[0] += 1
         for lx in mlexs:
             lines.append("c19 tw-base-grid %s %s %s %s" % (G.sx_words(lx), G.sx_word(w), G.sx_nats(ds), G.sx_nats(ps)))
             lines.append("c19 within-grid osa %s %s %s %s" % (G.sx_words(lx), G.sx_word(w), G.sx_nats(ds), G.sx_nats(ps)))
@@ -563,6 +712,8 @@ def _check_fuzzy(ctx, cfg, rr, w, d, p, exp, exp_lev, nontriv, case, mdocs):
             ctx.violation(SIG_PREFIX, fcase, exp_docs, fo, "FuzzyTerm with prefixlength > len(text)")
         elif fo == "EXC:ValueError" and any(MAXCP in t for t in cfg.lex):
             ctx.violation(SIG_MAXCP, fcase, exp_docs, fo, "")
+        elif fo == "EXC:UnicodeEncodeError" and any(LASTLOW in t for t in cfg.lex):
+            ctx.violation(SIG_SURR, fcase, exp_docs, fo, "")
         elif fo == [] and not cfg.multi and cfg.lex[0] == "" and "" in els:
             ctx.violation(SIG_EMPTY, fcase, exp_docs, fo, "")
         else:
@@ -576,6 +727,9 @@ def _classify_tw(ctx, path, cfg, case, w, d, p, exp, exp_lev, obs):
         ctx.violation(SIG_PREFIX, case, sorted(exp), obs, "terms_within with prefix > len(text) on one segment")
     elif obs == "EXC:ValueError" and path == "seg" and any(MAXCP in t for t in lexset):
         ctx.violation(SIG_MAXCP, case, sorted(exp), obs, "the walk steps past a term containing U+10FFFF")
+    elif obs == "EXC:UnicodeEncodeError" and path == "seg" and any(LASTLOW in t for t in lexset):
+        ctx.violation(SIG_SURR, case, sorted(exp), obs, "the walk steps past a term containing U+D7FF: the next "
+                      "label is the surrogate U+D800, which cur.find cannot encode")
     elif isinstance(obs, str):
         ctx.violation("terms_within[%s]:raises:%s" % (path, obs), case, sorted(exp), obs, "")
     elif path == "seg" and obs == sorted(exp_lev):
@@ -871,10 +1025,20 @@ def _check_corrector(ctx, kind, cfg, wl, w, lim, d, p, obs, pred, allowed, dist)
 def _multibyte_configs(ctx, n):
     rng = ctx.rng("mb")
     pool = ["a", "b", "é", "ê", "中", "文", "\U0001F600", "\U0001F601", "\x00", "\x01",
-            "\x7f", "\x80", "߿", "ࠀ", "￿", "\U00010000", MAXCP, chr(0x10FFFE)]
+            "\x7f", "\x80", "߿", "ࠀ", "￿", "\U00010000", MAXCP, chr(0x10FFFE),
+            LASTLOW, chr(0xD7FE), FIRSTHIGH, chr(0xE001)]
     out = []
     for i in range(n):
         al = rng.sample(pool, rng.randint(2, 4))
+        # the places where "the next code point" is not "the next character", on every seed
+        if i % 5 == 0 and LASTLOW not in al:
+            al[0] = LASTLOW
+        elif i % 5 == 1 and MAXCP not in al:
+            al[0] = MAXCP
+        elif i % 5 == 2 and not (set(al) & {"\U00010000", "\U0001F600", "\U0001F601"}):
+            al[0] = "\U00010000"
+        for c in al:
+            ctx.stat("multibyte-alphabet:utf8-len-%d" % len(c.encode("utf8")))
         W = set()
         for _ in range(rng.randint(3, 30)):
             W.add("".join(rng.choice(al) for _ in range(rng.randint(0, 5))))
@@ -890,6 +1054,23 @@ def _multibyte_configs(ctx, n):
         segs = [docs[j::nseg] for j in range(nseg)]
         segs = [s for s in segs if s]
         out.append((Config("mb%d" % i, segs), sorted(qs)))
+    return out
+
+
+def _boundary_configs(ctx):
+    """Exhaustive small lexicons over alphabets that straddle the places where code points, characters and
+    UTF-8 lengths part ways: the surrogate block, the last code point, the 1/2/3/4-byte boundaries.  Every
+    word of length <= 3 is a term (one segment, and spread over three), every word of length <= 2 plus a
+    seeded sample of the longer ones is queried."""
+    rng = ctx.rng("boundary")
+    out = []
+    for name, al in (("surr", ["a", LASTLOW, FIRSTHIGH]), ("max", ["\x00", chr(0x10FFFE), MAXCP]),
+                     ("len12", ["\x7f", "\x80", "߿"]), ("len23", ["߿", "ࠀ", "b"]),
+                     ("len34", ["￿", "\U00010000", "a"])):
+        W = G.words_upto(al, 3)
+        qs = [w for w in W if len(w) <= 2] + rng.sample([w for w in W if len(w) == 3], min(27, ctx.budget(4, 27)))
+        out.append((Config("bd-%s:1" % name, [list(W)]), qs))
+        out.append((Config("bd-%s:3" % name, [W[0::3], W[1::3], W[2::3]]), qs))
     return out
 
 
@@ -924,6 +1105,13 @@ def _run(ctx):
         doms = [("ab5", A2, A2), ("abc4", A3, A3)]
     _automaton_stream(ctx, doms)
     lap("automaton")
+    fw = [w for w in A2 if len(w) <= 4] + ["abc", "a" + LASTLOW, "a" + MAXCP, "\U00010000b"]
+    if ctx.tier == "quick":
+        fw = fw[ctx.seed % 2::2] + fw[-4:]
+    _fne_stream(ctx, fw, [u for u in A2 if len(u) <= 3] + ["abc", "a" + LASTLOW, "c"])
+    lap("find_next_edge")
+    _utf8_stream(ctx)
+    lap("utf8+cursor")
     groups = []
     for name, W in (("ab5", A2), ("abc4", A3)):
         # every word is a lexicon member in both tiers; the quick tier queries all words over {a,b} but only
@@ -938,9 +1126,15 @@ def _run(ctx):
             ps = [0, 1, 2, 4, 6]          # 3 and 5 are covered over {a,b} and in the thorough tier
         groups.append(_group(name, Q, cfgs, DS, ps, [0, 1, 2, 3], [0, 1, 2], [0, 1, 2, 5, 50],
                              lambda cfg: ":sub" in cfg.key))
-    groups += [_group(cfg.key, qs, [cfg], [0, 1, 2, 3], [0, 1, 2, 6], [1, 2], [0, 1], [1, 5], lambda c: True)
+    groups += [_group(cfg.key, qs, [cfg], [0, 1, 2, 3], [0, 1, 2, 6], [1, 2], [0, 1], [1, 5], lambda c: True,
+                      bytes_cursor=True)
                for cfg, qs in _multibyte_configs(ctx, ctx.budget(20, 400))]
+    groups += [_group(cfg.key, qs, [cfg], [0, 1, 2, 3], [0, 1, 2, 6], [1, 2], [0, 1], [1, 5], lambda c: True,
+                      bytes_cursor=True)
+               for cfg, qs in _boundary_configs(ctx)]
+    ctx_stat_bytes[0] = 0
     _index_stream(ctx, groups)
+    ctx.stat("terms_within:model-walks-byte-ordered-dictionary", ctx_stat_bytes[0])
     lap("index(ab5,abc4,multibyte)")
     _corrector_stream(ctx)
     lap("correctors")
